@@ -3,6 +3,7 @@ package level
 import (
 	"errors"
 	"io"
+	"math/bits"
 	"strconv"
 
 	"github.com/Tnze/go-mc/level/biome"
@@ -59,6 +60,9 @@ func NewStatesPaletteContainerWithData(length int, data []uint64, pat []BlocksSt
 		}
 	default:
 		p = &globalPalette[BlocksState]{}
+		if len(pat) > 1<<8 {
+			data = resolveIndirect(length, data, pat, block.BitsPerBlock)
+		}
 	}
 	return &PaletteContainer[BlocksState]{
 		bits:    n,
@@ -94,6 +98,9 @@ func NewBiomesPaletteContainerWithData(length int, data []uint64, pat []BiomesSt
 		}
 	default:
 		p = &globalPalette[BiomesState]{}
+		if len(pat) > 1<<3 {
+			data = resolveIndirect(length, data, pat, biome.BitsPerBiome)
+		}
 	}
 	return &PaletteContainer[BiomesState]{
 		bits:    n,
@@ -101,6 +108,18 @@ func NewBiomesPaletteContainerWithData(length int, data []uint64, pat []BiomesSt
 		palette: p,
 		data:    NewBitStorage(biomesCfg{}.bits(n), length, data),
 	}
+}
+
+// resolveIndirect handles save data whose palette has more entries than the widest indirect palette
+// of this package: the save format packs indices of bits.Len(len(pat)-1) bits into pat; they are
+// resolved into directly stored ids of directBits bits (the global palette).
+func resolveIndirect[T State](length int, data []uint64, pat []T, directBits int) []uint64 {
+	idx := NewBitStorage(bits.Len(uint(len(pat)-1)), length, data)
+	direct := NewBitStorage(directBits, length, nil)
+	for i := 0; i < length; i++ {
+		direct.Set(i, int(pat[idx.Get(i)]))
+	}
+	return direct.Raw()
 }
 
 // withCap copies a saved palette into a slice whose capacity is the number of ids its width
